@@ -422,3 +422,42 @@ def h_soe_sig(ctx, it):
 from . import C06 as _c06   # noqa: E402,F401
 from pvc.runner import HARNESSES as _H   # noqa: E402
 _H[(P, 'solver_contract.LDAWrapper.update.clears')] = dict(_H[('C06', 'LDAWrapper.update.clears')])
+
+
+for _cx, _herm, _symflag, _hermflag in ((True, False, True, None), (False, True, True, None), (True, True, None, None), (True, False, None, False), (False, False, False, None)):
+    @harness(P, f'LinSolve.class_flags[complex={_cx},hermitian={_herm},symmetric_arg={_symflag},hermitian_arg={_hermflag}]',
+             targets=[f'{L}:LinSolve._response', f'{L}:LinSolve._prepare'])
+    def h_linsolve_flags(ctx, it, cx=_cx, herm=_herm, symflag=_symflag, hermflag=_hermflag):
+        """the class information LinSolve hands to the solver selection and to the LDAS wrapper is TRUE of the matrix: `hermitian` is what the user
+        stated or what was detected - the `symmetric` flag implies it for REAL matrices only (a complex symmetric matrix is not Hermitian) -, and
+        `symmetric` is passed on as given"""
+        MA.reset()
+        auto = SolverModel(it)
+        install_solver_contract(it, [auto])
+        seen = {}
+        it.summaries[f'{MC}:matrix_is_sparse'] = lambda itp, a, k: False
+        it.summaries[f'{MC}:matrix_is_complex'] = lambda itp, a, k: cx
+        it.summaries[f'{MC}:matrix_is_hermitian'] = lambda itp, a, k: herm
+        it.summaries[f'{MC}:matrix_is_symmetric'] = lambda itp, a, k: (herm and not cx) or bool(symflag)
+
+        def auto_det(itp, a, k):
+            seen['auto'] = dict(k)
+            return auto.obj
+        it.summaries['pymoto.solvers.auto_determine:auto_determine_solver'] = auto_det
+        kw = {}
+        if symflag is not None:
+            kw['symmetric'] = symflag
+        if hermflag is not None:
+            kw['hermitian'] = hermflag
+        mod = mk_module(it, f'{L}:LinSolve', 2, 1, **kw)
+        props = ({'real'} if not cx else set()) | ({'hermitian'} if herm else set()) | ({'symmetric'} if symflag else set())
+        Am, bm = MA.Mat.atom('A', props), MA.Mat.atom('b', {'real'} if not cx else ())
+        x = it.call(it.getattr(mod, '_response'), [MA.wrap(Am, 'complex' if cx else 'real'), MA.wrap(bm, 'complex' if cx else 'real')])
+        truly_herm = herm if hermflag is None else hermflag          # a user statement is taken as true (admissibility)
+        ctx.prove('selection_gets_true_hermitian_flag', seen.get('auto', {}).get('ishermitian') is truly_herm)
+        ctx.prove('module_flag_true', it.getattr(mod, 'ishermitian') is truly_herm)
+        sol = it.getattr(mod, 'solver')
+        if isinstance(sol, Obj) and sol.cls is not None and sol.cls.name == 'LDAWrapper':
+            ctx.prove('wrapper_gets_true_hermitian_flag', it.getattr(sol, 'hermitian') is truly_herm)
+            ctx.prove('wrapper_gets_symmetric_flag_as_given', it.getattr(sol, 'symmetric') is symflag)
+        ctx.prove('solves', (Am @ MA.unwrap(x) - bm).is_zero())
